@@ -318,6 +318,7 @@ func run(cx *lib.Ctx) {
 			res.Sample(json.RawMessage(pc.input()))
 		}
 	}
+	malformedStatic(k)
 	nd := cx.Scale(12000, 600000)
 	maxDepth := 4
 	if cx.Thorough() {
